@@ -38,6 +38,8 @@ CONSTANTS Scns,        \* set of scenario records (same shape as the traces' scn
           MaxFaults,   \* at most this many injected faults per behaviour
           UserCancels, \* TRUE: the user may run cancel-jobs once, at any moment
           EagerUser,   \* TRUE: the user runs try-submit-jobs on the login node at any moment (not only when all is quiet)
+          ResubFlags,  \* flag records [failed, missing, successful] with which the user may run resubmit-jobs once on the
+                       \* completed submission ({} = never)
           Log,         \* TRUE: keep path/elog (cover and simulation configurations; hidden by VIEW)
           Fixed        \* set of findings repaired in the modelled tree, e.g. {"F1"}; the pinned defects stay expressible
 
@@ -63,11 +65,12 @@ VARIABLES
   npid, nuser, ended,
   nfault,           \* injected faults so far
   ncancel,          \* cancel-jobs commands issued by the user (0 or 1)
+  nresub,           \* resubmit-jobs commands issued by the user (0 or 1)
   m,                \* the monitor
   path, elog        \* history (only when Log): action labels taken, events emitted
 
-vars == <<S, cfg, js, marker, bfile, hs, nodeFile, processed, jp, procs, npid, nuser, ended, nfault, ncancel, m, path, elog>>
-implvars == <<S, cfg, js, marker, bfile, hs, nodeFile, processed, jp, procs, nuser, ended, nfault, ncancel>>
+vars == <<S, cfg, js, marker, bfile, hs, nodeFile, processed, jp, procs, npid, nuser, ended, nfault, ncancel, nresub, m, path, elog>>
+implvars == <<S, cfg, js, marker, bfile, hs, nodeFile, processed, jp, procs, nuser, ended, nfault, ncancel, nresub>>
 
 J == JobsOf(S)
 NoFile == [jobs |-> <<>>, hb |-> <<>>]
@@ -78,7 +81,7 @@ SlotHost(s) == IF s = LOGIN \/ s > 2 * MaxB THEN "login" ELSE IF s <= MaxB THEN 
 Idle == [kind |-> "none", pc |-> "idle", pid |-> 0, b |-> 0,
          lcfg |-> <<>>, wcfg |-> <<>>, ljs |-> <<>>, act |-> {}, todo |-> {}, got |-> <<>>, pending |-> <<>>,
          newly |-> {}, canc |-> <<>>, gi |-> 0, avail |-> <<>>, subm |-> <<>>, blkd |-> {}, lbidx |-> 0,
-         done |-> FALSE, exc |-> "", rc |-> 0,
+         done |-> FALSE, exc |-> "", rc |-> 0, fl |-> [failed |-> TRUE, missing |-> TRUE, successful |-> FALSE],
          queue |-> <<>>, outst |-> <<>>, nrem |-> <<>>, depth |-> 0]
 
 RowOk(j, b) == <<j, ToString(S.rc[j]), "finished", "0.0", "0.0", ToString(b)>>
@@ -136,7 +139,7 @@ Init ==
                 THEN [Idle EXCEPT !.kind = "submit-jobs", !.pc = "poll", !.pid = 1,
                                   !.lcfg = InitCfg("login"), !.wcfg = InitCfg("login"), !.ljs = InitJs(S), !.lbidx = 1]
                 ELSE Idle]
-  /\ npid = 1 /\ nuser = 0 /\ ended = FALSE /\ nfault = 0 /\ ncancel = 0
+  /\ npid = 1 /\ nuser = 0 /\ ended = FALSE /\ nfault = 0 /\ ncancel = 0 /\ nresub = 0
   /\ m = IF Monitor
            THEN MonSteps(S, MonInit(S),
                   << EvProc(1, "submit-jobs", FALSE, -1),
@@ -156,7 +159,7 @@ Init ==
 CanFault(k) == k \in FaultKinds /\ nfault < MaxFaults /\ ~ended
 P(s) == procs[s]
 Set(s, rec) == procs' = [procs EXCEPT ![s] = rec]
-IsSubmitterKind(k) == k \in {"submit-jobs", "try-submit-jobs"}
+IsSubmitterKind(k) == k \in {"submit-jobs", "try-submit-jobs", "resubmit-jobs"}
 Label(s) == P(s).kind
 
 \* ---------------------------------------------------------------- R1 promotion (one cluster-lock section)
@@ -180,7 +183,7 @@ Promote(s) ==
                                    !.lcfg = c1, !.wcfg = c1, !.ljs = js, !.lbidx = js.bidx, !.act = js.ids])
             /\ Feed(<<"Promote", s, 0>>, <<EvStatus(P(s).pid, c1, js, marker, nodeFile, processed),
                       EvPromote(P(s).pid, host, TRUE, "", host, FALSE)>>)
-  /\ UNCHANGED <<S, js, marker, bfile, hs, nodeFile, processed, jp, npid, nuser, ended, nfault, ncancel>>
+  /\ UNCHANGED <<S, js, marker, bfile, hs, nodeFile, processed, jp, npid, nuser, ended, nfault, ncancel, nresub>>
 
 \* ---------------------------------------------------------------- R3 poll the scheduler once
 Poll(s) ==
@@ -195,7 +198,7 @@ Poll(s) ==
         /\ nfault' = nfault + 1
         /\ Set(s, [P(s) EXCEPT !.pc = "demote", !.exc = "ExecutionError"])
         /\ Feed(<<"PollFail", s, 7>>, [k \in 1..7 |-> [e |-> "squeue", ok |-> FALSE, pid |-> P(s).pid]])
-  /\ UNCHANGED <<S, cfg, js, marker, bfile, hs, nodeFile, processed, jp, npid, nuser, ended, ncancel>>
+  /\ UNCHANGED <<S, cfg, js, marker, bfile, hs, nodeFile, processed, jp, npid, nuser, ended, ncancel, nresub>>
 
 \* ---------------------------------------------------------------- R4 collection
 \* process_results(): take the processed-results lock and glob the node files.  When the last file has been moved
@@ -208,7 +211,7 @@ Glob(s) ==
             /\ Feed(<<"Glob", s, 0>>, <<EvRows(nodeFile, processed), [e |-> "collected", rows |-> <<>>]>>)
        ELSE /\ Set(s, [P(s) EXCEPT !.pc = "move", !.todo = todo, !.got = <<>>])
             /\ Feed(<<"Glob", s, 0>>, <<>>)
-  /\ UNCHANGED <<S, cfg, js, marker, bfile, hs, nodeFile, processed, jp, npid, nuser, ended, nfault, ncancel>>
+  /\ UNCHANGED <<S, cfg, js, marker, bfile, hs, nodeFile, processed, jp, npid, nuser, ended, nfault, ncancel, nresub>>
 
 Move(s, b) ==
   /\ P(s).pc = "move" /\ b \in P(s).todo
@@ -219,7 +222,7 @@ Move(s, b) ==
      /\ processed' = pr /\ nodeFile' = nf
      /\ Set(s, [P(s) EXCEPT !.todo = @ \ {b}, !.got = got1, !.pc = IF last THEN "cancel" ELSE "move"])
      /\ Feed(<<"Move", s, b>>, <<EvRows(nf, pr)>> \o (IF last THEN <<EvRows(nf, pr), [e |-> "collected", rows |-> got1]>> ELSE <<>>))
-  /\ UNCHANGED <<S, cfg, js, marker, bfile, hs, jp, npid, nuser, ended, nfault, ncancel>>
+  /\ UNCHANGED <<S, cfg, js, marker, bfile, hs, jp, npid, nuser, ended, nfault, ncancel, nresub>>
 
 \* one iteration of the `while need_to_rerun` loop body after process_results() returned
 CancelPass(s) ==
@@ -245,7 +248,7 @@ CancelPass(s) ==
         /\ Set(s, [p EXCEPT !.ljs = ljs1, !.newly = newly, !.canc = @ \o cseq, !.pending = crows, !.got = <<>>,
                             !.pc = IF crows # <<>> THEN "glob" ELSE "marker"])
         /\ Feed(<<"CancelPass", s, Len(crows)>>, Zip(1))
-  /\ UNCHANGED <<S, cfg, js, marker, bfile, hs, nodeFile, jp, npid, nuser, ended, nfault, ncancel>>
+  /\ UNCHANGED <<S, cfg, js, marker, bfile, hs, nodeFile, jp, npid, nuser, ended, nfault, ncancel, nresub>>
 
 \* ---------------------------------------------------------------- R5 submitter.lock
 MarkerTouch(s) ==
@@ -254,7 +257,7 @@ MarkerTouch(s) ==
        THEN Set(s, [P(s) EXCEPT !.pc = "demote", !.exc = "Exception"]) /\ UNCHANGED marker
        ELSE marker' = TRUE /\ Set(s, [P(s) EXCEPT !.pc = "group", !.gi = 1, !.subm = <<>>, !.blkd = {}])
   /\ Feed(<<"MarkerTouch", s, 0>>, <<>>)
-  /\ UNCHANGED <<S, cfg, js, bfile, hs, nodeFile, processed, jp, npid, nuser, ended, nfault, ncancel>>
+  /\ UNCHANGED <<S, cfg, js, bfile, hs, nodeFile, processed, jp, npid, nuser, ended, nfault, ncancel, nresub>>
 
 \* ---------------------------------------------------------------- R6 batches
 QueueFull(p) == S.maxnodes > 0 /\ Cardinality(p.act) >= S.maxnodes
@@ -276,7 +279,7 @@ NextGroup(s) ==
               THEN Set(s, [p EXCEPT !.gi = @ + 1])
               ELSE Set(s, [p EXCEPT !.pc = "batch", !.avail = AvailFor(p, p.gi)])
   /\ Feed(<<"NextGroup", s, 0>>, <<>>)
-  /\ UNCHANGED <<S, cfg, js, marker, bfile, hs, nodeFile, processed, jp, npid, nuser, ended, nfault, ncancel>>
+  /\ UNCHANGED <<S, cfg, js, marker, bfile, hs, nodeFile, processed, jp, npid, nuser, ended, nfault, ncancel, nresub>>
 
 \* one iteration of `while not queue.is_full() and available_jobs:` -- _make_batch, files, sbatch
 SubmitBatchX(s, fail) ==
@@ -288,7 +291,7 @@ SubmitBatchX(s, fail) ==
      IN IF QueueFull(p) \/ p.avail = <<>>
           THEN /\ Set(s, [p EXCEPT !.pc = "group", !.gi = @ + 1, !.avail = <<>>])
                /\ Feed(<<"SubmitBatch", s, 0>>, <<>>)
-               /\ UNCHANGED <<bfile, hs, nfault, ncancel>>
+               /\ UNCHANGED <<bfile, hs, nfault, ncancel, nresub>>
           ELSE LET r == MakeBatch(PP, p.avail)
                    b == p.lbidx
                    hb == [k \in 1..Len(r.batch) |-> SeqOf(p.ljs.rem[r.batch[k]])]
@@ -296,7 +299,7 @@ SubmitBatchX(s, fail) ==
                IN IF r.batch = <<>>
                     THEN /\ Set(s, [p EXCEPT !.avail = r.rest, !.blkd = @ \cup r.blocked])
                          /\ Feed(<<"SubmitBatch", s, 0>>, <<>>)
-                         /\ UNCHANGED <<bfile, hs, nfault, ncancel>>
+                         /\ UNCHANGED <<bfile, hs, nfault, ncancel, nresub>>
                     ELSE /\ b \in B          \* the model is bounded to MaxB batches
                          /\ bfile' = [bfile EXCEPT ![b] = [jobs |-> r.batch, hb |-> hb]]
                          \* sbatch fails on all 7 attempts: the batch is not outstanding, its jobs are still recorded as
@@ -311,7 +314,7 @@ SubmitBatchX(s, fail) ==
                                         jobs |-> r.batch, hb |-> hb, rows |-> rowsNow, opts |-> g.opts, run |-> g.run]
                             IN Feed(<<IF fail THEN "SubmitBatchFail" ELSE "SubmitBatch", s, IF fail THEN b ELSE 1>>,
                                     IF fail THEN <<cb, sbe, sbe, sbe, sbe, sbe, sbe, sbe>> ELSE <<cb, sbe>>)
-  /\ UNCHANGED <<S, cfg, js, marker, nodeFile, processed, jp, npid, nuser, ended, ncancel>>
+  /\ UNCHANGED <<S, cfg, js, marker, nodeFile, processed, jp, npid, nuser, ended, ncancel, nresub>>
 
 
 SubmitBatch(s) == SubmitBatchX(s, FALSE)
@@ -340,7 +343,7 @@ Persist(s) ==
             ELSE /\ cfg' = lcfg2 /\ js' = ljs1
                  /\ Set(s, [p EXCEPT !.pc = "check", !.lcfg = lcfg2, !.wcfg = lcfg2, !.ljs = ljs1])
                  /\ Feed(<<"Persist", s, IF need THEN 1 ELSE 0>>, <<EvStatus(p.pid, lcfg2, ljs1, marker, nodeFile, processed)>>)
-  /\ UNCHANGED <<S, marker, bfile, hs, nodeFile, processed, jp, npid, nuser, ended, nfault, ncancel>>
+  /\ UNCHANGED <<S, marker, bfile, hs, nodeFile, processed, jp, npid, nuser, ended, nfault, ncancel, nresub>>
 
 \* ---------------------------------------------------------------- R8/R9
 CheckComplete(s) ==
@@ -350,14 +353,14 @@ CheckComplete(s) ==
          force == ~allDone /\ p.ljs.ids = {}
      IN Set(s, [p EXCEPT !.pc = "unmark", !.done = allDone \/ force])
   /\ Feed(<<"CheckComplete", s, 0>>, <<>>)
-  /\ UNCHANGED <<S, cfg, js, marker, bfile, hs, nodeFile, processed, jp, npid, nuser, ended, nfault, ncancel>>
+  /\ UNCHANGED <<S, cfg, js, marker, bfile, hs, nodeFile, processed, jp, npid, nuser, ended, nfault, ncancel, nresub>>
 
 MarkerRemove(s) ==
   /\ P(s).pc = "unmark"
   /\ marker' = FALSE
   /\ Set(s, [P(s) EXCEPT !.pc = IF P(s).done THEN "summary" ELSE "demote"])
   /\ Feed(<<"MarkerRemove", s, 0>>, <<>>)
-  /\ UNCHANGED <<S, cfg, js, bfile, hs, nodeFile, processed, jp, npid, nuser, ended, nfault, ncancel>>
+  /\ UNCHANGED <<S, cfg, js, bfile, hs, nodeFile, processed, jp, npid, nuser, ended, nfault, ncancel, nresub>>
 
 \* ---------------------------------------------------------------- R10 completion
 ResRow(r) == <<r[1], IF r[2] = "0" THEN 0 ELSE 1, r[3], r[4], r[5], r[6]>>
@@ -374,14 +377,14 @@ Summary(s) ==
   \* _handle_completion returns Status.ERROR (exit code 1) when the number of results differs from the number of jobs
   /\ Set(s, [P(s) EXCEPT !.pc = IF S.hooks.teardown THEN "teardown" ELSE "markcomplete",
                          !.rc = IF Len(processed) # Cardinality(J) THEN 1 ELSE 0])
-  /\ UNCHANGED <<S, cfg, js, marker, bfile, hs, nodeFile, processed, jp, npid, nuser, ended, nfault, ncancel>>
+  /\ UNCHANGED <<S, cfg, js, marker, bfile, hs, nodeFile, processed, jp, npid, nuser, ended, nfault, ncancel, nresub>>
 
 \* _handle_completion: the teardown command, after the results summary and before the completion flag
 Teardown(s) ==
   /\ P(s).pc = "teardown"
   /\ Set(s, [P(s) EXCEPT !.pc = "markcomplete"])
   /\ Feed(<<"Teardown", s, 0>>, <<EvHook("teardown", P(s).pid, -1, "", nodeFile, processed)>>)
-  /\ UNCHANGED <<S, cfg, js, marker, bfile, hs, nodeFile, processed, jp, npid, nuser, ended, nfault, ncancel>>
+  /\ UNCHANGED <<S, cfg, js, marker, bfile, hs, nodeFile, processed, jp, npid, nuser, ended, nfault, ncancel, nresub>>
 
 MarkComplete(s) ==
   /\ P(s).pc = "markcomplete"
@@ -392,7 +395,7 @@ MarkComplete(s) ==
             /\ cfg' = c1
             /\ Set(s, [p EXCEPT !.pc = "demote", !.lcfg = c1, !.wcfg = c1])
             /\ Feed(<<"MarkComplete", s, 0>>, <<EvStatus(p.pid, c1, js, marker, nodeFile, processed)>>)
-  /\ UNCHANGED <<S, js, marker, bfile, hs, nodeFile, processed, jp, npid, nuser, ended, nfault, ncancel>>
+  /\ UNCHANGED <<S, js, marker, bfile, hs, nodeFile, processed, jp, npid, nuser, ended, nfault, ncancel, nresub>>
 
 \* ---------------------------------------------------------------- R11 demotion (the `finally` of every path)
 Demote(s) ==
@@ -403,7 +406,7 @@ Demote(s) ==
      /\ procs' = Gone(s, procs)
      /\ Feed(<<"Demote", s, 0>>, <<EvStatus(p.pid, c1, js, marker, nodeFile, processed),
                                    EvExit(p.pid, p.kind, IF p.exc # "" THEN 1 ELSE p.rc, p.exc)>>)
-  /\ UNCHANGED <<S, js, marker, bfile, hs, nodeFile, processed, jp, npid, nuser, ended, nfault, ncancel>>
+  /\ UNCHANGED <<S, js, marker, bfile, hs, nodeFile, processed, jp, npid, nuser, ended, nfault, ncancel, nresub>>
 
 \* the runner's `jade try-submit-jobs` returned: run-jobs exits, the batch leaves the queue
 NodeEnd(s) ==
@@ -412,7 +415,7 @@ NodeEnd(s) ==
      /\ hs' = h1
      /\ Set(s, Idle)
      /\ Feed(<<"NodeEnd", s, 0>>, <<EvExit(P(s).pid, "run-jobs", 0, ""), [e |-> "hpc", what |-> "end", b |-> s, active |-> Active(h1)]>>)
-  /\ UNCHANGED <<S, cfg, js, marker, bfile, nodeFile, processed, jp, npid, nuser, ended, nfault, ncancel>>
+  /\ UNCHANGED <<S, cfg, js, marker, bfile, nodeFile, processed, jp, npid, nuser, ended, nfault, ncancel, nresub>>
 
 \* ---------------------------------------------------------------- the HPC and the nodes
 StartBatch(b) ==
@@ -427,7 +430,7 @@ StartBatch(b) ==
                                         !.depth = IF Len(jobs) < maxw THEN Len(jobs) ELSE maxw,
                                         !.nrem = [k \in 1..Len(jobs) |-> ToSet(bfile[b].hb[k])]])
         /\ Feed(<<"StartBatch", b, 0>>, <<[e |-> "hpc", what |-> "start", b |-> b, active |-> Active(h1)], EvProc(npid + 1, "run-jobs", FALSE, b)>>)
-  /\ UNCHANGED <<S, cfg, js, marker, bfile, nodeFile, processed, jp, nuser, ended, nfault, ncancel>>
+  /\ UNCHANGED <<S, cfg, js, marker, bfile, nodeFile, processed, jp, nuser, ended, nfault, ncancel, nresub>>
 
 \* start queued jobs into free slots, in queue order, skipping blocked ones (JobQueue.submit / process_queue)
 \* returns [queue, outst, started (sequence)]
@@ -451,12 +454,12 @@ NodeSetup(s) ==
   /\ s \in B /\ P(s).pc = "nsetup"
   /\ Set(s, [P(s) EXCEPT !.pc = "ninit"])
   /\ Feed(<<"NodeSetup", s, 0>>, <<EvHook("nsetup", P(s).pid, P(s).b, S.grp[bfile[P(s).b].jobs[1]], nodeFile, processed)>>)
-  /\ UNCHANGED <<S, cfg, js, marker, bfile, hs, nodeFile, processed, jp, npid, nuser, ended, nfault, ncancel>>
+  /\ UNCHANGED <<S, cfg, js, marker, bfile, hs, nodeFile, processed, jp, npid, nuser, ended, nfault, ncancel, nresub>>
 NodeTeardown(s) ==
   /\ s \in B /\ P(s).pc = "nteardown"
   /\ Set(s, [P(s) EXCEPT !.pc = "ntry"])
   /\ Feed(<<"NodeTeardown", s, 0>>, <<EvHook("nteardown", P(s).pid, P(s).b, S.grp[bfile[P(s).b].jobs[1]], nodeFile, processed)>>)
-  /\ UNCHANGED <<S, cfg, js, marker, bfile, hs, nodeFile, processed, jp, npid, nuser, ended, nfault, ncancel>>
+  /\ UNCHANGED <<S, cfg, js, marker, bfile, hs, nodeFile, processed, jp, npid, nuser, ended, nfault, ncancel, nresub>>
 
 NodeInit(s) ==
   /\ s \in B /\ P(s).pc = "ninit"
@@ -467,13 +470,13 @@ NodeInit(s) ==
      IN /\ Set(s, [p EXCEPT !.pc = "nwait", !.queue = r.queue, !.outst = r.outst, !.nrem = nremF])
         /\ jp' = [j \in J |-> IF j \in ToSet(r.started) THEN "running" ELSE jp[j]]
         /\ Feed(<<"NodeInit", s, Len(r.started)>>, LaunchEvents(p.pid, p.b, r.started, 0, SeqOf(NamesOnDisk(nodeFile, processed))))
-  /\ UNCHANGED <<S, cfg, js, marker, bfile, hs, nodeFile, processed, npid, nuser, ended, nfault, ncancel>>
+  /\ UNCHANGED <<S, cfg, js, marker, bfile, hs, nodeFile, processed, npid, nuser, ended, nfault, ncancel, nresub>>
 
 JobExit(j) ==
   /\ j \in J /\ jp[j] = "running"
   /\ jp' = [jp EXCEPT ![j] = "exited"]
   /\ Feed(<<"JobExit", j, 0>>, <<[e |-> "jobexit", job |-> j, rc |-> S.rc[j]]>>)
-  /\ UNCHANGED <<S, cfg, js, marker, bfile, hs, nodeFile, processed, procs, npid, nuser, ended, nfault, ncancel>>
+  /\ UNCHANGED <<S, cfg, js, marker, bfile, hs, nodeFile, processed, procs, npid, nuser, ended, nfault, ncancel, nresub>>
 
 \* JobQueue._check_completions as a fixpoint.  st = [outst, queue, nrem, failed, rows (appended, in order), fin (set)]
 \* isDoneF(j): the job's process has exited, or the job was canceled by this queue
@@ -528,7 +531,7 @@ NodePoll(s) ==
                                   !.pc = IF r.queue = <<>> /\ r.outst = <<>> THEN (IF S.hooks.nteardown THEN "nteardown" ELSE "ntry") ELSE "nwait"])
               /\ Feed(<<"NodePoll", s, Len(c.rows) + Len(r.started)>>, RowEvents(1, nodeFile[p.b])
                       \o LaunchEvents(p.pid, p.b, r.started, Len(c.outst), SeqOf(NamesOnDisk(nf, processed))))
-  /\ UNCHANGED <<S, cfg, js, marker, bfile, hs, processed, npid, nuser, ended, nfault, ncancel>>
+  /\ UNCHANGED <<S, cfg, js, marker, bfile, hs, processed, npid, nuser, ended, nfault, ncancel, nresub>>
 
 \* all jobs of the batch ended: the runner runs `jade try-submit-jobs` and waits for it
 NodeTry(s) ==
@@ -537,7 +540,7 @@ NodeTry(s) ==
   /\ procs' = [procs EXCEPT ![s].pc = "nwaittry",
                             ![TrySlot(s)] = [Idle EXCEPT !.kind = "try-submit-jobs", !.pc = "promote", !.pid = npid + 1, !.b = s]]
   /\ Feed(<<"NodeTry", s, 0>>, <<EvProc(npid + 1, "try-submit-jobs", TRUE, s)>>)
-  /\ UNCHANGED <<S, cfg, js, marker, bfile, hs, nodeFile, processed, jp, nuser, ended, nfault, ncancel>>
+  /\ UNCHANGED <<S, cfg, js, marker, bfile, hs, nodeFile, processed, jp, nuser, ended, nfault, ncancel, nresub>>
 
 
 \* ---------------------------------------------------------------- injected faults (FaultKinds, MaxFaults)
@@ -583,7 +586,7 @@ Kill(s) ==
                                           [e |-> "kill", pid |-> p.pid]>>)
           ELSE /\ UNCHANGED bfile
                /\ Feed(<<"Kill", s, 0>>, <<[e |-> "kill", pid |-> p.pid]>>)
-  /\ UNCHANGED <<S, cfg, js, marker, hs, nodeFile, processed, jp, npid, nuser, ended, ncancel>>
+  /\ UNCHANGED <<S, cfg, js, marker, hs, nodeFile, processed, jp, npid, nuser, ended, ncancel, nresub>>
 
 \* the node of a running batch disappears (killed, walltime): runner, its nested try-submit-jobs and its job processes die;
 \* rows already appended stay
@@ -600,7 +603,7 @@ NodeKill(b) ==
         /\ procs' = [procs EXCEPT ![RunSlot(b)] = Idle, ![TrySlot(b)] = Idle]
         /\ jp' = [j \in J |-> IF j \in bj /\ jp[j] \in {"running", "exited"} THEN "none" ELSE jp[j]]
         /\ Feed(<<"NodeKill", b, 0>>, evs)
-  /\ UNCHANGED <<S, cfg, js, marker, bfile, nodeFile, processed, npid, nuser, ended, ncancel>>
+  /\ UNCHANGED <<S, cfg, js, marker, bfile, nodeFile, processed, npid, nuser, ended, ncancel, nresub>>
 
 
 \* ---------------------------------------------------------------- cancel-jobs (cli/cancel_jobs.py, JobSubmitter.cancel_jobs)
@@ -610,7 +613,7 @@ UserCancel ==
   /\ ncancel' = 1 /\ npid' = npid + 1
   /\ Set(CSLOT, [Idle EXCEPT !.kind = "cancel-jobs", !.pc = "cpromote", !.pid = npid + 1])
   /\ Feed(<<"UserCancel", CSLOT, 0>>, <<EvProc(npid + 1, "cancel-jobs", FALSE, -1)>>)
-  /\ UNCHANGED <<S, cfg, js, marker, bfile, hs, nodeFile, processed, jp, nuser, ended, nfault>>
+  /\ UNCHANGED <<S, cfg, js, marker, bfile, hs, nodeFile, processed, jp, nuser, ended, nfault, nresub>>
 
 \* `for _ in range(60): deserialize(try_promote...)`: refused -> sleep 1 s and try again
 CPromote(s) ==
@@ -625,7 +628,7 @@ CPromote(s) ==
                                    !.todo = js.ids])
             /\ Feed(<<"CPromote", s, 1>>, <<EvStatus(P(s).pid, c1, js, marker, nodeFile, processed),
                                             EvPromote(P(s).pid, "login", TRUE, "", "login", FALSE)>>)
-  /\ UNCHANGED <<S, js, marker, bfile, hs, nodeFile, processed, jp, npid, nuser, ended, nfault, ncancel>>
+  /\ UNCHANGED <<S, js, marker, bfile, hs, nodeFile, processed, jp, npid, nuser, ended, nfault, ncancel, nresub>>
 
 \* scancel of the next persisted id (in the persisted order): a pending batch leaves the queue, a running one is killed
 \* with everything on its node; a batch that already left the queue makes scancel fail (ignored)
@@ -650,7 +653,7 @@ CScancel(s) ==
                                          ![TrySlot(b)] = IF running THEN Idle ELSE @]
                /\ jp' = [j \in J |-> IF running /\ j \in bj /\ jp[j] \in {"running", "exited"} THEN "none" ELSE jp[j]]
                /\ Feed(<<"CScancel", s, b>>, <<[e |-> "scancel", b |-> b]>> \o kills \o hev)
-  /\ UNCHANGED <<S, cfg, js, marker, bfile, nodeFile, processed, npid, nuser, ended, nfault, ncancel>>
+  /\ UNCHANGED <<S, cfg, js, marker, bfile, nodeFile, processed, npid, nuser, ended, nfault, ncancel, nresub>>
 
 CMark(s) ==
   /\ s = CSLOT /\ P(s).pc = "cmark"
@@ -658,7 +661,7 @@ CMark(s) ==
      /\ cfg' = c1
      /\ Set(s, [P(s) EXCEPT !.pc = "cdemote", !.lcfg = c1, !.wcfg = c1])
      /\ Feed(<<"CMark", s, 0>>, <<EvStatus(P(s).pid, c1, js, marker, nodeFile, processed)>>)
-  /\ UNCHANGED <<S, js, marker, bfile, hs, nodeFile, processed, jp, npid, nuser, ended, nfault, ncancel>>
+  /\ UNCHANGED <<S, js, marker, bfile, hs, nodeFile, processed, jp, npid, nuser, ended, nfault, ncancel, nresub>>
 
 \* demote; on an already complete submission that is all (exit 0); otherwise sleep 15 s and run try-submit-jobs
 CDemote(s) ==
@@ -670,7 +673,7 @@ CDemote(s) ==
      /\ Feed(<<"CDemote", s, IF done THEN 0 ELSE 1>>,
              <<EvStatus(P(s).pid, c1, js, marker, nodeFile, processed)>>
              \o (IF done THEN <<EvExit(P(s).pid, "cancel-jobs", 0, "")>> ELSE <<>>))
-  /\ UNCHANGED <<S, js, marker, bfile, hs, nodeFile, processed, jp, npid, nuser, ended, nfault, ncancel>>
+  /\ UNCHANGED <<S, js, marker, bfile, hs, nodeFile, processed, jp, npid, nuser, ended, nfault, ncancel, nresub>>
 
 CTrySpawn(s) ==
   /\ s = CSLOT /\ P(s).pc = "ctry" /\ P(CTRY).kind = "none"
@@ -678,20 +681,71 @@ CTrySpawn(s) ==
   /\ procs' = [procs EXCEPT ![s].pc = "cwait",
                             ![CTRY] = [Idle EXCEPT !.kind = "try-submit-jobs", !.pc = "promote", !.pid = npid + 1]]
   /\ Feed(<<"CTrySpawn", s, 0>>, <<EvProc(npid + 1, "try-submit-jobs", TRUE, -1)>>)
-  /\ UNCHANGED <<S, cfg, js, marker, bfile, hs, nodeFile, processed, jp, nuser, ended, nfault, ncancel>>
+  /\ UNCHANGED <<S, cfg, js, marker, bfile, hs, nodeFile, processed, jp, nuser, ended, nfault, ncancel, nresub>>
 
 \* the nested try-submit-jobs returned: cancel-jobs exits with its return code
 CEnd(s) ==
   /\ s = CSLOT /\ P(s).pc = "cend"
   /\ Set(s, Idle)
   /\ Feed(<<"CEnd", s, 0>>, <<EvExit(P(s).pid, "cancel-jobs", P(s).rc, "")>>)
-  /\ UNCHANGED <<S, cfg, js, marker, bfile, hs, nodeFile, processed, jp, npid, nuser, ended, nfault, ncancel>>
+  /\ UNCHANGED <<S, cfg, js, marker, bfile, hs, nodeFile, processed, jp, npid, nuser, ended, nfault, ncancel, nresub>>
 
 CancelStep(s) == CPromote(s) \/ CScancel(s) \/ CMark(s) \/ CDemote(s) \/ CTrySpawn(s) \/ CEnd(s)
 
 \* ---------------------------------------------------------------- the user
-Quiescent == /\ \A s \in Slots : P(s).kind = "none"
+QuiescentDef == /\ \A s \in Slots : P(s).kind = "none"
              /\ \A b \in B : hs[b] \notin {"pending", "running"}
+Quiescent == QuiescentDef
+
+\* ---------------------------------------------------------------- resubmit-jobs (cli/resubmit_jobs.py, Cluster.prepare_for_resubmission)
+\* the user reruns part of the completed submission: the selection by the flags from the results, closed under dependents
+RowClass(r) == IF r[3] = "canceled" THEN "canceled" ELSE IF r[2] = "0" THEN "successful" ELSE "failed"
+SelectedBy(f) ==
+  LET withRow == RowNames(processed)
+      cls(j) == RowClass(processed[CHOOSE k \in 1..Len(processed) : processed[k][1] = j])
+  IN {j \in J : \/ (j \in withRow /\ f.failed /\ cls(j) \in {"failed", "canceled"})
+                \/ (j \in withRow /\ f.successful /\ cls(j) = "successful")
+                \/ (j \notin withRow /\ f.missing)}
+RECURSIVE Downstream(_)
+Downstream(X) == LET Y == X \cup {j \in J : ToSet(S.blk[j]) \cap X # {}} IN IF Y = X THEN X ELSE Downstream(Y)
+FlagCode(f) == (IF f.failed THEN 1 ELSE 0) + (IF f.missing THEN 2 ELSE 0) + (IF f.successful THEN 4 ELSE 0)
+
+UserResubmit ==
+  /\ nresub = 0 /\ QuiescentDef /\ cfg.complete /\ ~cfg.canceled /\ ~ended
+  /\ \E f \in ResubFlags :
+       /\ nresub' = 1 /\ npid' = npid + 1 /\ nuser' = 0        \* the new epoch gets its own recovery rounds
+       /\ Set(LOGIN, [Idle EXCEPT !.kind = "resubmit-jobs", !.pc = "rpromote", !.pid = npid + 1, !.fl = f])
+       /\ Feed(<<"UserResubmit", 0, FlagCode(f)>>, <<[EvProc(npid + 1, "resubmit-jobs", FALSE, -1) EXCEPT !.fl = f]>>)
+  /\ UNCHANGED <<S, cfg, js, marker, bfile, hs, nodeFile, processed, jp, ended, nfault, ncancel>>
+
+\* Cluster.deserialize(try_promote_to_submitter=True): nobody else is around on a complete, quiet submission
+RPromote(s) ==
+  /\ s = LOGIN /\ P(s).pc = "rpromote"
+  /\ LET c1 == [cfg EXCEPT !.sub = "login", !.ver = @ + 1] IN
+     /\ cfg' = c1
+     /\ Set(s, [P(s) EXCEPT !.pc = "rreset", !.lcfg = c1, !.wcfg = c1, !.ljs = js])
+     /\ Feed(<<"RPromote", s, 0>>, <<EvStatus(P(s).pid, c1, js, marker, nodeFile, processed),
+                                     EvPromote(P(s).pid, "login", TRUE, "", "login", FALSE)>>)
+  /\ UNCHANGED <<S, js, marker, bfile, hs, nodeFile, processed, jp, npid, nuser, ended, nfault, ncancel, nresub>>
+
+\* the results are read (processed-results lock), then -- without a lock -- the rerun jobs' rows are pruned and
+\* prepare_for_resubmission resets states, blockers (those that are themselves rerun), counters and the completion flag
+RReset(s) ==
+  /\ s = LOGIN /\ P(s).pc = "rreset"
+  /\ LET p == P(s)
+         rr == Downstream(SelectedBy(p.fl))
+         pr == SelectSeq(processed, LAMBDA r : r[1] \notin rr)
+         js1 == [js EXCEPT !.st = [j \in J |-> IF j \in rr THEN 0 ELSE @[j]],
+                           !.rem = [j \in J |-> IF j \in rr THEN ToSet(S.blk[j]) \cap rr ELSE @[j]],
+                           !.ver = @ + 1]
+         c1 == [p.lcfg EXCEPT !.complete = FALSE,
+                              !.nsub = Cardinality({j \in J : js1.st[j] # 0}),
+                              !.ndone = Cardinality({j \in J \ rr : js.st[j] = 2}),
+                              !.ver = @ + 1]
+     IN /\ processed' = pr /\ js' = js1 /\ cfg' = c1
+        /\ Set(s, [p EXCEPT !.pc = "poll", !.lcfg = c1, !.wcfg = c1, !.ljs = js1, !.lbidx = js1.bidx, !.act = js1.ids])
+        /\ Feed(<<"RReset", s, 0>>, <<EvRows(nodeFile, processed), EvStatus(p.pid, c1, js1, marker, nodeFile, pr)>>)
+  /\ UNCHANGED <<S, marker, bfile, hs, nodeFile, jp, npid, nuser, ended, nfault, ncancel, nresub>>
 
 \* the documented recovery: try-submit-jobs (also what show-status offers) when nothing is active
 UserTry ==
@@ -699,7 +753,7 @@ UserTry ==
   /\ npid' = npid + 1 /\ nuser' = nuser + 1
   /\ Set(LOGIN, [Idle EXCEPT !.kind = "try-submit-jobs", !.pc = "promote", !.pid = npid + 1])
   /\ Feed(<<"UserTry", 0, 0>>, <<EvProc(npid + 1, "try-submit-jobs", FALSE, -1)>>)
-  /\ UNCHANGED <<S, cfg, js, marker, bfile, hs, nodeFile, processed, jp, ended, nfault, ncancel>>
+  /\ UNCHANGED <<S, cfg, js, marker, bfile, hs, nodeFile, processed, jp, ended, nfault, ncancel, nresub>>
 
 \* the run is over (complete, or the user gave up): final checks of the monitor
 End ==
@@ -708,15 +762,15 @@ End ==
   \* (with an eager user the bounded number of rounds may have been spent while they were refused: an incomplete end is
   \*  then the bound's doing, not a verdict about recovery)
   /\ Feed(<<"End", 0, 0>>, <<[e |-> "end", full |-> (cfg.complete \/ ~EagerUser)]>>)
-  /\ UNCHANGED <<S, cfg, js, marker, bfile, hs, nodeFile, processed, jp, procs, npid, nuser, nfault, ncancel>>
+  /\ UNCHANGED <<S, cfg, js, marker, bfile, hs, nodeFile, processed, jp, procs, npid, nuser, nfault, ncancel, nresub>>
 
 SubStep(s) == \/ Promote(s) \/ Poll(s) \/ Glob(s) \/ (\E b \in B : Move(s, b)) \/ CancelPass(s) \/ MarkerTouch(s)
               \/ NextGroup(s) \/ SubmitBatch(s) \/ SubmitBatchFail(s) \/ Persist(s) \/ CheckComplete(s) \/ MarkerRemove(s)
-              \/ Summary(s) \/ Teardown(s) \/ MarkComplete(s) \/ Demote(s)
+              \/ Summary(s) \/ Teardown(s) \/ MarkComplete(s) \/ Demote(s) \/ RPromote(s) \/ RReset(s)
 NodeStep(s) == NodeSetup(s) \/ NodeInit(s) \/ NodePoll(s) \/ NodeTeardown(s) \/ NodeTry(s) \/ NodeEnd(s)
 
 Next == \/ \E s \in Slots : SubStep(s) \/ NodeStep(s) \/ Kill(s) \/ CancelStep(s)
-        \/ UserCancel
+        \/ UserCancel \/ UserResubmit
         \/ \E b \in B : NodeKill(b)
         \/ \E b \in B : StartBatch(b)
         \/ \E j \in J : JobExit(j)
